@@ -110,7 +110,10 @@ PROPS = {
         "level_note": "proved — immediate close without good nodes; answers and query timeouts never end a search (only the end-game timer, scheduled 1.5 s after nothing was outstanding); every query gets a 1.5 s timeout entry; timer pops in deadline order, cancel removes exactly its entry; and, under the timer contract as an explicit hypothesis of the run (PunctualRun J: no pending entry overdue by more than J when the handler runs), the quantitative bound for every interleaving and any number of concurrent searches: a search still open at `now` satisfies now <= T0 + (1.5 s + J)(1 + k) + 1.5 s + 2J, k = nodes queried after the first round, each named in an accepted answer (C04_deadline_invariant, C04_upper, C04_silent, C04_later_rounds_query_named_nodes). PARTIAL only in that the timer contract of tokio is assumed; the [C04] oracles on silent/lossy/chain/hostile networks with failing sends measure the real closing times",
     },
     "C05": {
-        "engines": [{"name": "handler", "quick": 60, "thorough": 1500, "oracle_tag": "C05"}],
+        "engines": [{"name": "handler", "quick": 60, "thorough": 1500, "oracle_tag": "C05"},
+                    # what a query asks for (want, port / implied_port, token) is what the decoder makes of its
+                    # bytes: the decoder half of the codec tie belongs to "each well-formed query gets a correct reply"
+                    {"name": "codec", "quick": 40, "thorough": 1500, "oracle_tag": "C13", "op_filter": ["dec"]}],
         "constants": ["PROTOCOL_ERROR", "SERVER_ERROR", "REPLY_NODES_PER_FAMILY", "REPLY_NODES_PER_FAMILY_V6", "MAX_VALUES_V4", "MAX_VALUES_V6"],
         "trusted": COMMON_TRUST + ["transaction ids, action ids and token secrets are symbolic in the model and canonicalised by order of first appearance on both sides (C19/C06 prove what the symbols stand for)", "tokio timers fire at their deadline rounded up to the 1 ms tick (the observed instant is an oracle input of the `fire` op)"],
         "assumptions": [],
